@@ -118,8 +118,10 @@ Inductive op :=
 | OpDestroy (h : nat)                                (* ~unsynchronized_pool_allocator, 86 *)
 | OpAlloc (h : nat) (n : Z) (grow : nat)             (* allocate, 111-127 *)
 | OpDealloc (h : nat) (b : nat) (n : Z) (shrink : nat) (* deallocate, 129-134 *)
-| OpAllocFail (h : nat) (n : Z) (grow : nat).        (* allocate in which the base allocator throws after the pool
+| OpAllocFail (h : nat) (n : Z) (grow : nat)         (* allocate in which the base allocator throws after the pool
                                                         obtained [grow] buffers *)
+| OpElem (h : nat)                                   (* construct / destroy (137-148): element life time only *)
+| OpQuery (h1 h2 : nat).                             (* operator== / != (150-160), get_base_allocator (101): read only *)
 
 (* shared_ptr release: the last owner destroys the MemPool.  ~MemPool (MemPool.h:228-235) has
    MOMO_EXTRA_CHECK(allocCount == 0) and then returns every buffer; the control block obtained by
@@ -150,6 +152,24 @@ Definition use_cache (P : pool) : bool :=
   Gen_MemPool.pvUseCache (cached_free_block_count cfg) (fst (pparams P)) (snd (pparams P)).
 (* MemPool::Allocate (281-303) takes a parked block, without touching the base allocator, when the cache is not empty *)
 Definition from_cache (st : state) (p : nat) : bool := use_cache (pools st p) && negb (Nat.eqb (cached st p) 0).
+
+(* the decision part of allocate (111-127) and deallocate (129-134), as separate functions: proved equal to the
+   cxx2coq-GENERATED Gen_PoolAllocator.allocate / deallocate (PoolAllocProofs: gen_allocate_refines, gen_deallocate_refines)
+   and to what [step] does (step_alloc_follows_decision, step_dealloc_follows_decision) *)
+Inductive adec := APool (recreate : bool) | ARaw (size : Z).
+Definition alloc_decision (vt : vtype) (P : pool) (n : Z) : adec :=
+  if n =? 1 then
+    let equal := params_eqb (get_params vt) (pparams P) in
+    if negb equal && Nat.eqb (pcount P) 0 then APool true
+    else if equal then APool false
+    else ARaw (n * vsize vt)
+  else ARaw (n * vsize vt).
+Inductive ddec := DPool | DRaw (size : Z).
+Definition dealloc_decision (vt : vtype) (P : pool) (n : Z) : ddec :=
+  if (n =? 1) && params_eqb (get_params vt) (pparams P) then DPool else DRaw (n * vsize vt).
+
+(* operator== (150-154): two allocators are equal iff they share the pool *)
+Definition alloc_eq (st : state) (h1 h2 : nat) : bool := Nat.eqb (hpool (handles st h1)) (hpool (handles st h2)).
 
 Definition new_pool (vt : vtype) : pool := mkPool (get_params vt) 0 1 0 true.
 
@@ -266,6 +286,8 @@ Definition step (st : state) (o : op) : outcome (state * obs) :=
                    mkObs None None p grow 0 false)
         else nothing
       else nothing
+  | OpElem h => Ok (st, mkObs None None (hpool (handles st h)) 0 0 false)
+  | OpQuery h1 h2 => Ok (st, mkObs None None (hpool (handles st h1)) 0 0 false)
   end.
 
 Fixpoint run (st : state) (ops : list op) : outcome (state * list obs) :=
@@ -322,6 +344,8 @@ Definition proto_ok (st : state) (o : op) : bool :=
       let B := blocks st b in
       handle_ok st h && Nat.ltb b (nblocks st) && balive B &&
       Nat.eqb (bpool B) (hpool (handles st h)) && vt_eqb (bvt B) (hvt (handles st h)) && (bn B =? n)
+  | OpElem h => handle_ok st h
+  | OpQuery h1 h2 => handle_ok st h1 && handle_ok st h2
   | OpAllocFail h n grow =>
       (* a failure needs a base allocation: not the take-from-cache path *)
       handle_ok st h && (1 <=? n) &&
